@@ -173,11 +173,12 @@ func (a *ChannelReestablish) Encode(w *bytes.Buffer, pver uint32) error {
 		// read back as the commit secret and point. Refuse a value
 		// that can't be decoded back instead of writing it.
 		if len(a.ExtraData) != 0 || a.LocalNonce.IsSome() ||
-			a.DynHeight.IsSome() || a.LocalNonces.IsSome() {
+			a.DynHeight.IsSome() || a.LocalNonces.IsSome() ||
+			a.LastRemoteCommitSecret != [32]byte{} {
 
-			return fmt.Errorf("channel_reestablish: extension " +
-				"data can't be encoded without the commit " +
-				"point")
+			return fmt.Errorf("channel_reestablish: the commit " +
+				"secret and extension data can't be " +
+				"encoded without the commit point")
 		}
 
 		return nil
